@@ -195,7 +195,7 @@ class Ctx:
 
     def floor(self, name, count, floor):
         self.floors.append((name, count, floor))
-        if count < floor:
+        if count < floor and not self.violations:
             raise AnalysisError("floor not met for %s: found %d instance(s), confirmed by hand: %d — the rule would pass vacuously" % (name, count, floor))
 
     def new_config(self, name):
